@@ -88,6 +88,7 @@ pub fn check(case: &C07Case) -> CaseOutcome
         o.class("has-file-under-8KiB");
     }
     let mut seen_sigs = std::collections::BTreeSet::new();
+    let mut followups = 0usize;
     for (plan, k, what) in &plans
     {
         let fr = fault_run(&tree, false, Some(plan.clone()), None);
@@ -129,6 +130,55 @@ pub fn check(case: &C07Case) -> CaseOutcome
             if seen_sigs.insert(sig.clone())
             {
                 o.fail(&sig, format!("plan {} (op {}: {}): {:?}", plan, k, op_desc, others));
+            }
+        }
+        // Nothing a killed run leaves behind may harm a later run: the developer shortens every
+        // source file, then an ordinary run in the SAME sandbox (same TMPDIR) must produce exactly
+        // the shortened files plus reference tokens.
+        if matches!(fr.run.exit, Exit::Signal(_)) && *k > first_scratch && (followups < 10 || *k % 5 == 0) && o.deviations.is_empty()
+        {
+            followups += 1;
+            let proj = fr.sandbox.proj();
+            let mut shortened: Vec<(String, Vec<u8>)> = Vec::new();
+            for (rel, orig) in &files
+            {
+                let text = String::from_utf8_lossy(orig).to_string();
+                let lines: Vec<&str> = text.lines().collect();
+                let keep = (lines.len() / 3).max(2).min(lines.len());
+                let mut t = lines[..keep].join("\n");
+                t.push_str("\n    warn!(\"added after the crash\");\n}\n");
+                let _ = std::fs::write(proj.join(rel), &t);
+                shortened.push((rel.clone(), t.into_bytes()));
+            }
+            let r2 = crate::sandbox::simple_run(&fr.sandbox, false);
+            o.evals += 1;
+            o.class("follow-up-run-after-kill");
+            let after2 = crate::sandbox::read_files(&proj);
+            for (rel, so) in &shortened
+            {
+                let bad = match after2.get(rel)
+                {
+                    None => Some("the file no longer exists".to_string()),
+                    Some(n) => match crate::oracle::decompose(so, n)
+                    {
+                        Ok(ins) if !ins.is_empty() => None,
+                        Ok(_) => Some("no reference was inserted".to_string()),
+                        Err(m) => Some(m),
+                    },
+                };
+                if let Some(m) = bad
+                {
+                    if seen_sigs.insert("later-run-after-kill-corrupts-file".to_string())
+                    {
+                        o.fail(
+                            "later-run-after-kill-corrupts-file",
+                            format!(
+                                "after plan {} (op {}: {}) the developer shortened {} and ran breadlog again ({}): {}",
+                                plan, k, op_desc, rel, r2.exit.describe(), m
+                            ),
+                        );
+                    }
+                }
             }
         }
         if !o.deviations.is_empty() && plans.len() > 1
@@ -209,7 +259,7 @@ pub fn run(env: &Env, rec: &Recorder) -> (String, Vec<&'static str>)
     );
     rec.set_exhaustive(true);
     (
-        "trees of 1-4 source files (tens of bytes to ~1 MiB, insertions near start / middle / end, with and without final newline, both styles, lock on); inside each case a recording run gives the K counted operations (open/read/write/close/rename/unlink/stat/opendir on project and TMPDIR paths) and the complete update; then for EVERY k: SIGKILL before op k (and after the last op), op k failed with every errno applicable to its kind (EIO/ENOSPC/EXDEV/EACCES/EMFILE, short write), every rename failed (EXDEV/EACCES) followed by a SIGKILL before each of the next 14 operations, and (trees < 64 KiB) SIGKILL before every operation with TMPDIR really on another filesystem - each on a fresh copy. Oracle: every source file is byte-identical to the original or a complete update (insertion-only with exactly the reference run's offsets); every other project entry unchanged (lock exempt). exhaustive=true means: all operation boundaries of each generated tree. Non-trivial = distinct (tree, plan) whose fault hits after the first scratch-file open and not after the last op".to_string(),
+        "trees of 1-4 source files (tens of bytes to ~1 MiB, insertions near start / middle / end, with and without final newline, both styles, lock on); inside each case a recording run gives the K counted operations (open/read/write/close/rename/unlink/stat/opendir on project and TMPDIR paths) and the complete update; then for EVERY k: SIGKILL before op k (and after the last op), op k failed with every errno applicable to its kind (EIO/ENOSPC/EXDEV/EACCES/EMFILE, short write), every rename failed (EXDEV/EACCES) followed by a SIGKILL before each of the next 14 operations, and (trees < 64 KiB) SIGKILL before every operation with TMPDIR really on another filesystem - each on a fresh copy. Oracle: every source file is byte-identical to the original or a complete update (insertion-only with exactly the reference run's offsets); every other project entry unchanged (lock exempt); and for a sample of kill points a FOLLOW-UP: the developer shortens every source file and runs breadlog again in the same sandbox (same TMPDIR) - the result must be exactly the shortened files plus reference tokens (nothing left behind by the killed run may leak into a later run). exhaustive=true means: all operation boundaries of each generated tree. Non-trivial = distinct (tree, plan) whose fault hits after the first scratch-file open and not after the last op".to_string(),
         vec![
             "faults are injected at libc call boundaries of the dynamically linked executable (LD_PRELOAD); a kill or failure inside a system call is not enumerated",
             "power-loss semantics (unsynced data) are not part of the statement: no fsync is demanded",
